@@ -64,6 +64,14 @@ class IsolatedEnvironment:
         default_factory=dict, init=False)
     get_command_function: str
 
+    def reset(self) -> None:
+        """
+        Forget every environment and any content that was emitted but never collected
+        (called at the start of every compilation)
+        """
+        self.exec_global.clear()
+        self.content.get_content()
+
     def run(self, code: str, environment_id: str | None = None) -> str:
         """
         Run code on isloated environment
